@@ -451,7 +451,7 @@ func (p flowParams) healthy() bool {
 		}
 		return true
 	}
-	return only(p.AckMenu) && only(p.DLQMenu) && only(p.ReadMenu) && !p.Faults && len(p.Blocked) == 0 && !p.GateDestOpen && !p.GateDLQOpen
+	return only(p.AckMenu) && only(p.DLQMenu) && only(p.ReadMenu) && !p.Faults && !p.AckSendFaults && len(p.Blocked) == 0 && !p.GateDestOpen && !p.GateDLQOpen
 }
 
 func (a *analysis) checkDrained(when string, at int, epoch map[string]int, emitted, acked map[epKey][]int,
